@@ -1,5 +1,5 @@
 """setup_cmd: verify that the tools the checks need answer and check the Lean lemmas.
-Builds nothing from /repo (every check does that itself).  Writes build/lean_status.json with the
+Pre-builds the extension of the current tree for the native sweeps (dvc/extbuild.py; every check re-verifies the source hash).  Writes build/lean_status.json with the
 SHA-256 of every accepted Lean file; checks refuse to cite a lemma whose file hash differs."""
 import hashlib
 import json
@@ -35,4 +35,14 @@ for f in sorted(os.listdir(ldir)):
     print('lean', f, 'accepted' if accepted else 'REJECTED', status[f]['seconds'], 's')
     ok = ok and accepted
 json.dump(status, open(os.path.join(HERE, 'build', 'lean_status.json'), 'w'), indent=1)
+# the extension of /repo's current tree for the native sweeps (rebuilt by every check whose source hash differs)
+sys.path.insert(0, HERE)
+try:
+    from dvc import extbuild
+    from dvc.program import REPO
+    t0 = time.time()
+    print('native package of the current tree:', extbuild.native_root(REPO), round(time.time() - t0, 1), 's')
+except Exception as e:      # noqa
+    print('BUILD FAILED', e)
+    ok = False
 sys.exit(0 if ok else 1)
